@@ -212,6 +212,12 @@ def tunnelH : Handler := fun inp impl => do
   let reply := if order == .halfClose then reply else []
   let iup ← (do let x ← impl.getObjValAs? String "up"; hexDecode x)
   let icl ← (do let x ← impl.getObjValAs? String "cl"; hexDecode x)
+  -- a large final client burst travels as (length, seed); the harness reports how many bytes arrived behind
+  -- the head and whether they are exactly the burst's first bytes
+  let burst := (inp.getObjValAs? Nat "burst").toOption.getD 0
+  let late := (inp.getObjValAs? Nat "pause_ms").toOption.getD 0 > 0
+  let ibg := (impl.getObjValAs? Nat "burst_got").toOption.getD 0
+  let ibok := (impl.getObjValAs? Bool "burst_ok").toOption.getD true
   let ra := (impl.getObjValAs? String "raddr").toOption.getD ""
   let la := (impl.getObjValAs? String "laddr").toOption.getD ""
   let line := if pxy then proxyLineFor ra la else []
@@ -227,14 +233,15 @@ def tunnelH : Handler := fun inp impl => do
     else if routed then (true, codeLine, (tcpServe [] s).1, []) else (false, [], [], [])
   let t := scenario .firstEnds pre fwd ustream reply order
   let (mup, mcl) := if tunnel then (t.upSaw, t.clSaw) else ([], [])
-  let m := Json.mkObj [("up", hexEncode mup), ("cl", hexEncode mcl)]
+  let mburst := if tunnel then burst else 0
+  let m := Json.mkObj [("up", hexEncode mup), ("cl", hexEncode mcl), ("burst_got", mburst), ("burst_ok", true)]
   -- the specification, on what the endpoints actually received
   -- "once a connection is tunnelled": the proxy's own Lookup call returned a target (observed, so that a
   -- shrunk input whose `routed`/`host` fields no longer fit its bytes cannot fake a failure)
   let expectTunnel := (impl.getObjValAs? String "lookup").toOption == some "hit"
   let wantUp := line ++ stream
   let wantCl := ustream ++ reply
-  let spec := !expectTunnel || (iup == wantUp && icl == wantCl)
+  let spec := !expectTunnel || (iup == wantUp && icl == wantCl && ibg == burst && ibok)
   let segs := numChunks s
   let tag :=
     if !expectTunnel then path ++ "-no-tunnel"
@@ -242,8 +249,9 @@ def tunnelH : Handler := fun inp impl => do
       (if iup == wantUp && isPrefix ustream icl && isPrefix icl wantCl then "half-close-reply" else "half-close-other")
     else if path == "dyn" && pxy && !dynWritesProxyHeader then "dyn-pxyproto-ignored"
     else path ++ (match order with | .client => "-client" | .upstream => "-upstream" | .halfClose => "-half") ++
-      (if excess != [] then "-readahead" else "") ++ (if pxy then "-pxy" else "")
-  return ({ model := m, agree := mup == iup && mcl == icl, spec := spec,
+      (if excess != [] then "-readahead" else "") ++ (if pxy then "-pxy" else "") ++
+      (if late then "-late" else "") ++ (if burst > 0 then "-burst" else "")
+  return ({ model := m, agree := mup == iup && mcl == icl && mburst == ibg && ibok, spec := spec,
             nontrivial := expectTunnel && stream != [] && (segs ≥ 2 || ustream != []),
             tag := tag } : Verdict).toJson
 
@@ -257,18 +265,21 @@ def wsH : Handler := fun inp impl => do
   let iup ← (do let x ← impl.getObjValAs? String "up"; hexDecode x)
   let icl ← (do let x ← impl.getObjValAs? String "cl"; hexDecode x)
   let hs := (impl.getObjValAs? Bool "handshake").toOption.getD false
+  let burst := (inp.getObjValAs? Nat "burst").toOption.getD 0
+  let ibg := (impl.getObjValAs? Nat "burst_got").toOption.getD 0
+  let ibok := (impl.getObjValAs? Bool "burst_ok").toOption.getD true
   let stream := streamOf s
   let t := scenario .firstEnds [] (tcpServe [] s).1 (extra ++ ustream) reply order
-  let m := Json.mkObj [("up", hexEncode t.upSaw), ("cl", hexEncode t.clSaw)]
+  let m := Json.mkObj [("up", hexEncode t.upSaw), ("cl", hexEncode t.clSaw), ("burst_got", burst), ("burst_ok", true)]
   let wantCl := extra ++ ustream ++ reply
-  let spec := hs && iup == stream && icl == wantCl
+  let spec := hs && iup == stream && icl == wantCl && ibg == burst && ibok
   let tag :=
     if !hs then "handshake-failed"
     else if order == .halfClose then
       (if iup == stream && isPrefix (extra ++ ustream) icl && isPrefix icl wantCl then "half-close-reply" else "half-close-other")
     else "ws" ++ (match order with | .client => "-client" | .upstream => "-upstream" | .halfClose => "-half") ++
-      (if extra != [] then "-with101" else "")
-  return ({ model := m, agree := hs && t.upSaw == iup && t.clSaw == icl, spec := spec,
+      (if extra != [] then "-with101" else "") ++ (if burst > 0 then "-burst" else "")
+  return ({ model := m, agree := hs && t.upSaw == iup && t.clSaw == icl && ibg == burst && ibok, spec := spec,
             nontrivial := stream != [] && (numChunks s ≥ 2 || ustream != []), tag := tag } : Verdict).toJson
 
 def streams : List (String × Handler) :=
